@@ -130,6 +130,7 @@ GO2LEAN_UNITS = ('crc16', 'basetype', 'proto', 'decoder', 'decoderbits', 'encode
                  # units of translators/go2lean/targets_*.go (one file per unit)
                  'encoderlru', 'protomarshal', 'readbuffer', 'rawsize', 'kitint', 'decodersize',
                  'kitangle',
+                 'encodermesgdef',
                  )
 
 def _go2lean_step(unit):
